@@ -7,12 +7,21 @@ from . import coqlit as L
 class CtlFuture:
     def __init__(self):
         self.cbs = []
-        self.done = False
+        self.finished = False
 
     def add_done_callback(self, cb):
         self.cbs.append(cb)
-        if self.done:
+        if self.finished:
             cb(self)
+
+    def done(self):
+        return self.finished
+
+    def running(self):
+        return False
+
+    def cancelled(self):
+        return False
 
     def exception(self, timeout=None):
         return None
@@ -40,7 +49,7 @@ class CtlTasks:
         try:
             task(*args)
         finally:
-            fut.done = True
+            fut.finished = True
             for cb in fut.cbs:
                 cb(fut)
         return True
@@ -148,6 +157,8 @@ def op_lit(op):
         return "PollFailed"
     if k == "register":
         return "(Register %s)" % L.nat(op[1])
+    if k == "register-refused":
+        return "RegisterRefused"
     if k == "unregister":
         return "(Unregister %s)" % L.nat(op[1])
     return "(RunTask %s)" % L.nat(op[1])
